@@ -36,6 +36,11 @@ def setup():
     R["transforms"] = mods["myst_parser.mdit_to_docutils.transforms"]
     R["warnings_"] = mods["myst_parser.warnings_"]
     R["directives"] = mods["myst_parser.parsers.directives"]
+    from symx import rt
+
+    # docutils directive/role classes only store their constructor arguments: symbolic line numbers may pass through
+    rt.TRANSPARENT_EXTRA.update(["docutils.parsers.rst", "docutils.parsers.rst.directives.admonitions", "docutils.parsers.rst.directives.body",
+                                 "docutils.parsers.rst.directives.misc", "docutils.statemachine", "docutils.nodes", "docutils.utils", "docutils.parsers.rst.roles", "docutils.parsers.rst.directives", "docutils.parsers.rst.languages"])
     # mocking.py imports DocutilsRenderer lazily / for typing only; base imports mocking's classes: wired by load order
     return R
 
